@@ -63,7 +63,7 @@ def gen_custom(rng, p=0.4):
 def gen_batches(rng, n_max=3, p_custom=0.4, p_k=0.15, sims=4, p_time=0.3, p_reprop=0.0):
     bs = []
     for _ in range(rng.choice([1, 1, 2, n_max])):
-        b = {'stim': gen_stim(rng), 'seed': rng.randint(0, 5), 'custom': gen_custom(rng, p_custom)}
+        b = {'stim': gen_stim(rng), 'seed': rng.choice([0, 1, 2, 3, 4, 5, 5, 17, 255, 4096]), 'custom': gen_custom(rng, p_custom)}
         if rng.random() < p_k and sims > 1: b['k'] = rng.randint(1, sims - 1)
         if rng.random() < p_time: b['time'] = rng.choice([0, 1, 2.5, 5, 7.75, 10, 12.5, 20, 50, 1000])
         if rng.random() < 0.1: b['s_to_c_twice'] = True
